@@ -112,6 +112,25 @@ def discharge(S, ob, leaf_types=None, invariants=None):
         if isinstance(n, int) and ri[0] >= 0 and ri[1] < n:
             return True, "index in [%d, %d] below length %d" % (ri[0], ri[1], n), iv.used_invariants
         return False, "index range [%d, %d] vs length %s" % (ri[0], ri[1], n), iv.used_invariants
+    if kind == "PushFull":
+        # push into a fixed-capacity vector inside a loop over a collection of the same length, starting empty,
+        # one push per iteration: at iteration i the vector holds i < capacity elements
+        v = ob["ops"][0]
+        if v[0] == "lv":
+            info = eng.loops.get(v[1])
+            c = v[2]
+            if info is not None and info.kind == "iter" and info.src is not None and c in info.step:
+                from .models import shape_len
+                init, step = info.init.get(c), info.step.get(c)
+                n = shape_len(eng, info.src)
+                cap = init[2] if init is not None and init[0] == "arrayvec" and len(init) > 2 else None
+                empty = init is not None and init[0] == "arrayvec" and init[1] == ("array", ())
+                one_push = step is not None and step[0] == "pushed" and step[1] == v
+                if empty and one_push and cap is not None and n is not None and cap == n:
+                    return True, "one push per iteration of a loop over %s elements into an empty vector of capacity %s" % (n, cap), set()
+        if v[0] == "arrayvec" and v[1][0] == "array" and isinstance(v[2] if len(v) > 2 else None, int) and len(v[1][1]) < v[2]:
+            return True, "literal contents below capacity", set()
+        return False, "push into a fixed-capacity vector that may be full", set()
     if kind == "SliceRange":
         v, lo, hi = ob["ops"]
         n = ob.get("len")
